@@ -33,6 +33,7 @@ var registry = map[string]checkFn{
 	"C23": checkC23,
 	"C24": checkC24,
 	"C25": checkC25,
+	"C27": checkC27,
 	"C28": checkC28,
 	"C32": checkC32,
 	"C33": checkC33,
